@@ -10,3 +10,7 @@ import J1939.Props.C09
 #print axioms J1939.Props.C09.c09_window_obeyed
 #print axioms J1939.Props.C09.c09_bam_spacing
 #print axioms J1939.Props.C09.c09_bam_first
+#print axioms J1939.Props.C09.c09_22_first_cts
+#print axioms J1939.Props.C09.c09_22_rts_busy
+#print axioms J1939.Props.C09.c09_22_dt_grant
+#print axioms J1939.Props.C09.c09_22_cts_window
